@@ -330,7 +330,8 @@ def run(shard, ctx):
                 if rule == "substitute_harmonic":
                     (_x, stri) = root_and_triad(wf[0], wf[1])
                     common = len(set(otri) & set(stri))
-                    ctx.check("substitution: harmonic substitutes share two notes with the original triad", common >= 2,
+                    # (exactly two: a "substitute" sharing all three is the chord itself)
+                    ctx.check("substitution: harmonic substitutes share two notes with the original triad", common == 2,
                               dict(w, result=r), ">= 2 common notes", {"original": otri, "substitute": stri}, mechanism="harmonic")
                 elif rule == "substitute_minor_for_major":
                     ctx.check("substitution: minor-for-major roots lie a minor third above", (rr - rpc) % 12 == 3,
